@@ -5,7 +5,7 @@
    which the edit script pairs as identical survive every clean-up.  How go/printer places
    the surviving comments, which comments ast.NewCommentMap attaches to which node and which
    pairs internal/diff finds identical are observed, not modelled (see the end of this file). *)
-From GP Require Import Comments CommentFacts AstDiff AstDiffFacts DiffFacts.
+From GP Require Import Comments CommentFacts AstDiff AstDiffFacts DiffFacts DiffDiag WalkSame FileWalk.
 Local Open Scope Z_scope.
 
 (* No comment is invented, duplicated or reordered, whatever the changes report: after any
@@ -84,6 +84,61 @@ Theorem C17_identical_declaration_is_clear_of_every_span :
 Proof. exact identity_element_keeps_its_comments_b. Qed.
 Print Assumptions C17_identical_declaration_is_clear_of_every_span.
 
+(* One whole step on a file (Snapshot.Diff from the root).  When every field of the file other
+   than its declarations is the same in the two snapshots (file_okb: the package clause, the
+   position fields, File.Unresolved, File.Comments; "the same" is up to positions, of which only
+   validity counts, and attached comments), the Changed calls of the step are exactly those of the
+   walk of the declaration list, so - under the side conditions above - every call of the step
+   keeps clear of every comment attached to a declaration that is paired as identical. *)
+Theorem C17_file_step_is_clear_of_identical_declarations : forall from to w j xj c r xs,
+  diff_snapshot from to = Some w ->
+  file_okb from to = true ->
+  file_decls from = Some (r, xs) ->
+  list_okb (file_nend from) r xs (xedits (the_script xs (file_decls_to to))) = true ->
+  nth_error xs j = Some xj -> nth_error (xedits (the_script xs (file_decls_to to))) j = Some Identity ->
+  fst c < snd c -> attachedb xs j xj c = true ->
+  Forall (not_inside c) (w_log w).
+Proof. exact file_step_clear. Qed.
+Print Assumptions C17_file_step_is_clear_of_identical_declarations.
+
+(* A subtree in which nothing changed (the same tree up to positions and attached comments) makes
+   no Changed call at all, at any depth and in any region: a change that does not touch a file,
+   a declaration or a field deletes no comment there. *)
+Theorem C17_equal_subtrees_report_nothing : forall k nend r x y w,
+  same x y -> walk the_script k nend r x y = Some w -> w_log w = [].
+Proof. exact (walk_same the_script the_script_same). Qed.
+Print Assumptions C17_equal_subtrees_report_nothing.
+
+(* ... because internal/diff.Difference pairs two lists whose elements are pairwise equal element
+   by element (every edit is Identity), whatever the comparison says off the diagonal - its
+   first probe is the diagonal, which it follows to the end *)
+Theorem C17_equal_lists_are_paired_elementwise : forall f n, 0 <= n ->
+  (forall i, 0 <= i < n -> r_equal (f i i) = true) ->
+  difference f n n = Some (repeat Identity (Z.to_nat n)).
+Proof. exact difference_diagonal. Qed.
+Print Assumptions C17_equal_lists_are_paired_elementwise.
+
+Theorem C17_equal_declaration_lists_are_identical : forall xs ys,
+  same_all xs ys -> the_script xs ys = repeat Identity (length xs).
+Proof. exact the_script_same. Qed.
+Print Assumptions C17_equal_declaration_lists_are_identical.
+
+(* Which declarations are paired as identical: when a step changes ONE declaration (the lists have
+   the same length, every other declaration is the same tree up to positions and attached comments,
+   and nodeComparer finds a difference at index a), Difference pairs every other declaration with
+   its counterpart as Identity - unconditionally: nothing is assumed about how declarations
+   compare with each other (off the diagonal), and the search budget plays no part.  With several
+   changed declarations the pairing is not proved (the search is greedy and budgeted); the check
+   runs the transcription on every step. *)
+Theorem C17_single_change_pairs_every_other_declaration : forall xs ys (a j : nat),
+  length xs = length ys -> (a < length xs)%nat ->
+  (forall i, (i < length xs)%nat -> i <> a -> same (nth i xs (VNil 0)) (nth i ys (VNil 0))) ->
+  r_equal (compare_nodes (nth a xs (VNil 0)) (nth a ys (VNil 0))) = false ->
+  (j < length xs)%nat -> j <> a ->
+  nth_error (xedits (the_script xs ys)) j = Some Identity.
+Proof. exact one_change_others_identical. Qed.
+Print Assumptions C17_single_change_pairs_every_other_declaration.
+
 (* ... and such a comment survives all clean-ups of the run, whatever the replacers report as
    unchanged: the changelog records the spans that do not start at NoPos (record_changed), the
    changed intervals are those minus the unchanged spans, and a comment is dropped only when it
@@ -130,6 +185,24 @@ Example C17_identical_ex :
               /\ attachedb xs 0 (mk 20 30 [[(10, 19)]] 1%N) (10, 19) = true
               /\ attachedb xs 2 (mk 60 70 [[(71, 80)]] 3%N) (71, 80) = true
   | None => False
+  end.
+Proof. vm_compute. repeat split; reflexivity. Qed.
+
+(* non-vacuity of the file-level theorem: a file (doc, package position, name, three declarations,
+   two position fields) whose middle declaration changes *)
+Example C17_file_step_ex :
+  let mk := fun (p e : Z) (cm : list cgroup) (a : N) =>
+    VRef 20 {| n_isnode := true; n_pos := p; n_end := e; n_cmts := cm |} (VStruct 21 [VPos p; VAtom 22 a]) in
+  let xs := [mk 20 30 [[(10, 19)]] 1%N; mk 40 50 [] 2%N; mk 60 70 [[(71, 80)]] 3%N] in
+  let ys := [mk 20 30 [] 1%N; mk 40 50 [] 9%N; mk 60 70 [] 3%N] in
+  let file := fun ds => VRef 13 {| n_isnode := true; n_pos := 1; n_end := 70; n_cmts := [] |}
+                          (VStruct 14 [VNil 2; VPos 1; mk 9 10 [] 7%N; VSlice 18 true ds; VPos 0; VPos 95; VAtom 17 5]) in
+  match diff_snapshot (file xs) (file ys), file_decls (file xs) with
+  | Some w, Some (r, ds) =>
+      w_log w = [(30, 60)] /\ ds = xs /\ file_okb (file xs) (file ys) = true
+      /\ list_okb (file_nend (file xs)) r ds (xedits (the_script ds (file_decls_to (file ys)))) = true
+      /\ attachedb ds 0 (mk 20 30 [[(10, 19)]] 1%N) (10, 19) = true
+  | _, _ => False
   end.
 Proof. vm_compute. repeat split; reflexivity. Qed.
 
